@@ -447,5 +447,3 @@ def replay(ck, path):
     res = runner.run_batch(harness(), [("replay", r.get("script", []))])
     print("\n".join(res["replay"]["out"]))
     ck.evaluations = 1
-    ck.nontriv(1)
-    ck.nontriv(2)
